@@ -179,7 +179,7 @@ Qed.
 (* ---- part 2 (wrapper guards, translated leaves) is appended below by the main session ---- *)
 
 From Coq Require Import ZArith.
-From M4 Require Alg.Mul Alg.MulProofs Leaf.CMini Leaf.Gen_leaf Leaf.LeafSpecs Leaf.LeafSpecs3.
+From M4 Require Alg.Mul Alg.MulProofs Leaf.CMini Leaf.Gen_leaf Leaf.LeafSpecs Leaf.LeafSpecs3 Alg.Strassen Alg.StrassenGen Alg.StrassenProofs Alg.MPProofs Alg.Solve Alg.SolveProofs2.
 Local Open Scope nat_scope.
 
 (** ** part 2a: the checked public wrappers refuse incompatible dimensions before touching an operand
@@ -499,3 +499,33 @@ Proof. exact @gen_gray_code_eq. Qed.
 Print Assumptions C11_leaf_gray_code.
 
 End Leaves.
+
+(** ** part 2c: the remaining checked wrappers (Strassen front end, multi-core front end, solving) refuse
+    incompatible arguments before any operand is touched ([Err Die] / [None] = m4ri_die) *)
+Module Guards2.
+Import M4.Lin.Mat M4.Alg.Strassen M4.Alg.StrassenGen M4.Alg.StrassenProofs M4.Alg.MPProofs M4.Alg.Solve M4.Alg.SolveProofs2.
+Theorem C11_guard_mzd_mul :
+  forall base dflt cutoff win Copt A B,
+    nc A <> nr B \/ (cutoff < 0)%Z \/ (exists C, Copt = Some C /\ (nr C <> nr A \/ nc C <> nc B)) ->
+    mzd_mul_gen base dflt cutoff false win Copt A B = Err Die.
+Proof. exact (fun base dflt => mzd_mul_dies base dflt gen_table). Qed.
+Print Assumptions C11_guard_mzd_mul.
+
+Theorem C11_guard_mzd_mul_mp :
+  forall base dflt order cutoff Copt A B,
+    nc A <> nr B \/ (cutoff < 0)%Z \/ (exists C, Copt = Some C /\ (nr C <> nr A \/ nc C <> nc B)) ->
+    mzd_mul_mp_gen base dflt order cutoff Copt A B = Err Die.
+Proof. exact (fun base dflt => mzd_mul_mp_dies base dflt gen_table gen_mp). Qed.
+Print Assumptions C11_guard_mzd_mul_mp.
+
+Theorem C11_guard_solve_left : forall pluq tl tu pin cutoff A B check,
+  nr B <> Nat.max (nr A) (nc A) -> solve_left pluq tl tu pin cutoff A B check = None.
+Proof. exact solve_left_dies. Qed.
+Print Assumptions C11_guard_solve_left.
+
+Theorem C11_guard_pluq_solve_left : forall tl tu pin cutoff A r P Q B check,
+  pluq_solve_left tl tu pin cutoff A r P Q B check = None <->
+  nr B < nc A \/ length P <> nr A \/ length Q <> nc A.
+Proof. exact pluq_solve_left_dies. Qed.
+Print Assumptions C11_guard_pluq_solve_left.
+End Guards2.
